@@ -257,7 +257,7 @@ def _render(classes: list[dict], postponed: bool) -> str:
 
 
 def st_chain(ctx: Ctx):
-    ann = CF.st_annotation(3)
+    ann = CF.st_annotation(3, late_enum=True)
     fname = st.sampled_from(["f", "g", "h", "x"])
     fld = st.fixed_dictionaries({"name": fname, "ann": ann})
 
